@@ -36,6 +36,22 @@ def main(argv=None):
         print("no check for %s" % pid)
         return 2
     ctx = Ctx(pid, tier, seed, a.nproc, a.replay)
+    # ProbLog's d-DNNF compilation leaves its temporary .cnf files behind (thousands per run): give this run and its worker
+    # processes a private temporary directory under /verif/out and remove it at the end
+    import shutil
+    import tempfile
+    from .core import OUT
+    os.makedirs(os.path.join(OUT, "tmp"), exist_ok=True)
+    tmpdir = tempfile.mkdtemp(prefix="run_%s_" % pid, dir=os.path.join(OUT, "tmp"))
+    os.environ["TMPDIR"] = tmpdir
+    tempfile.tempdir = tmpdir
+    try:
+        return _run(mod, ctx, a, pid, tier, seed)
+    finally:
+        shutil.rmtree(tmpdir, ignore_errors=True)
+
+
+def _run(mod, ctx, a, pid, tier, seed):
     try:
         if a.replay:
             mod.replay(ctx, a.replay)
